@@ -439,7 +439,9 @@ def actStep (s : St) (ctx : HCtx) : Act → ActRes
   | .yld _ => ⟨s, .next⟩      -- handled by the generator stepper
   | .call .. => ⟨s, .next⟩
   | .wait .. => ⟨s, .next⟩
-  | .addH h => ⟨s.addHandler h, .next⟩
+  -- only declared user handlers can be added by user code (ids are a model artefact: an out-of-range id or
+  -- the id of a framework handler record is refused, like `admissible` does for register)
+  | .addH h => if (s.handler h).kind.code == 0 then ⟨s.addHandler h, .next⟩ else ⟨s, .out .raised⟩
   | .rmH h byName => ⟨(s.removeHandler h byName).2, if (s.removeHandler h byName).1 then .next else .out .raised⟩
   | .reg c p => ⟨s, .call (.register c p)⟩
   | .unreg c => ⟨s.unregister c, .next⟩
